@@ -490,8 +490,97 @@ func (fr *Frame) lockRelyCell(st *State, l Val, lr LockRely) (comp, cs string, b
 
 // lockHavoc: on acquiring a lock, the fields it protects hold whatever the other threads' critical
 // sections left there -- any value related to the last one this thread saw by the declared rely.
+// lockInvStruct resolves the object a lock belongs to and its struct type.
+func (fr *Frame) lockInvBase(l Val, li LockInv) (base *Term, stt types.Type, u *types.Struct, ok bool) {
+	ex := fr.ex
+	parts := strings.SplitN(li.Lock, ".", 2)
+	stt = ex.w.namedStruct(parts[0])
+	if stt == nil || len(parts) != 2 || !strings.HasPrefix(l.T.Op, "sub_") || len(l.T.Args) != 1 {
+		return nil, nil, nil, false
+	}
+	return l.T.Args[0], stt, stt.Underlying().(*types.Struct), true
+}
+
+// pureByName finds a spec function of the verified packages.
+func (w *World) pureByName(name string) *ssa.Function {
+	for _, sp := range w.spkgs {
+		if f := sp.Func(name); f != nil {
+			return f
+		}
+	}
+	return nil
+}
+
+// lockInvAcquire: thread-modular reading of Lock(). Whatever the lock protects may have been changed by other
+// threads while it was free: the guarded fields and the closed state of the protected channels get arbitrary
+// values (closed flags and channels only ever go from open to closed), about which only the invariant is known.
+func (fr *Frame) lockInvAcquire(st *State, l Val, pos token.Pos) {
+	ex := fr.ex
+	li, has := ex.w.lockInvs[l.Origin]
+	if !has {
+		return
+	}
+	base, stt, u, ok := fr.lockInvBase(l, li)
+	pred := ex.w.pureByName(li.Pred)
+	if !ok || pred == nil {
+		ex.note("STALE-CONTRACT: lockinv %s: lock object or predicate %s not found", li.Lock, li.Pred)
+		return
+	}
+	ex.trusted["lock invariant "+li.Pred+" of "+li.Lock+": assumed when the lock is taken (other threads' critical sections re-establish it; each critical section verified here is checked to do the same)"] = true
+	for i := 0; i < u.NumFields(); i++ {
+		f := u.Field(i)
+		origin := fieldOrigin(stt, i)
+		guarded := ex.w.guards[origin] == li.Lock
+		isCh := false
+		for _, c := range li.ClosedOf {
+			if c == f.Name() {
+				isCh = true
+			}
+		}
+		if guarded {
+			comp, cs := ex.fieldComp(stt, i)
+			h := ex.get(st, comp, cs)
+			_, es := arrayParts(cs)
+			nv := ex.ctx.Fresh("env."+sanitize(origin), es)
+			ex.assume(st, ex.typeFacts(nv, f.Type()))
+			if es == SBool {
+				// flags protected by the lock only ever go from false to true
+				ex.assume(st, Implies(Select(h, base), nv))
+			}
+			ex.set(st, comp, Store(h, base, nv))
+		}
+		if isCh {
+			comp, cs := ex.fieldComp(stt, i)
+			ch := Select(ex.get(st, comp, cs), base)
+			cc := "ChanClosed_" + typeKey(chanElem(f.Type()))
+			cl := ex.get(st, cc, ArraySort(SRef, SBool))
+			nv := ex.ctx.Fresh("env.closed."+sanitize(origin), SBool)
+			ex.assume(st, Implies(Select(cl, ch), nv))
+			ex.set(st, cc, Store(cl, ch, nv))
+		}
+	}
+	ex.assume(st, fr.ghostApply(st, &Closure{Fn: pred}, []Val{{T: base}}))
+}
+
+// lockInvRelease: the critical section must leave the invariant established.
+func (fr *Frame) lockInvRelease(st *State, l Val, pos token.Pos) {
+	ex := fr.ex
+	li, has := ex.w.lockInvs[l.Origin]
+	if !has {
+		return
+	}
+	base, _, _, ok := fr.lockInvBase(l, li)
+	pred := ex.w.pureByName(li.Pred)
+	if !ok || pred == nil {
+		return
+	}
+	g := fr.ghostApply(st, &Closure{Fn: pred}, []Val{{T: base}})
+	ex.assert(st, "lockinv", li.Pred+"@"+fr.fn.Name()+fr.siteSuffix("lockinv:"+li.Lock+":"+fr.fn.Name()), ex.w.safetyTags, g, fr.pos(pos))
+}
+
 func (fr *Frame) lockHavoc(st *State, l Val, pos token.Pos) {
 	ex := fr.ex
+	fr.lockInvAcquire(st, l, pos)
 	for _, lr := range ex.w.lockRelies[l.Origin] {
 		comp, cs, base, vt, ok := fr.lockRelyCell(st, l, lr)
 		if !ok {
@@ -521,6 +610,7 @@ func (fr *Frame) lockHavoc(st *State, l Val, pos token.Pos) {
 // lockGuarantee: on release, this thread's critical section must itself have respected the rely.
 func (fr *Frame) lockGuarantee(st *State, l Val, pos token.Pos) {
 	ex := fr.ex
+	fr.lockInvRelease(st, l, pos)
 	for _, lr := range ex.w.lockRelies[l.Origin] {
 		comp, cs, base, _, ok := fr.lockRelyCell(st, l, lr)
 		if !ok {
